@@ -148,8 +148,12 @@ fn same(a: &Out, b: &Out) -> bool {
 }
 
 macro_rules! three_way {
-    ($which:expr, $utf8:expr) => {{
+    ($which:expr, $utf8:expr) => {
+        three_way!($which, $utf8, K)
+    };
+    ($which:expr, $utf8:expr, $maxn:expr) => {{
         let (b, n) = sym_input();
+        kani::assume(n <= $maxn);
         let input = &b[..n];
         let mut sr = SliceRead::new(input);
         let o1 = scan(&mut sr, $which, $utf8);
@@ -175,7 +179,7 @@ macro_rules! three_way {
             assert!(same(&o1, &o3));
             kani::cover!(o3.ok && o3.len >= 2);
         }
-        kani::cover!(o1.ok && o1.len == K);
+        kani::cover!(o1.ok && o1.len == $maxn);
         kani::cover!(!o1.ok);
         (o1, b, n)
     }};
@@ -194,7 +198,7 @@ fn c06_symbol_three_way() {
 }
 
 /// R6RS string scanner (after the opening quote): slice / stream / str agree on text, error category, consumed prefix.
-/// @bound every input of 0..=3 bytes (raw bytes, one escape, closing quote, truncation)
+/// @bound every input of 0..=2 bytes (raw bytes, one escape, closing quote, truncation); 3 bytes measured infeasible (3000 s, 9 GB)
 /// @encodes SliceRead::parse_r6rs_str_bytes, IoRead::parse_r6rs_str_bytes, parse_r6rs_escape, decode_r6rs_hex_escape
 /// @prop C06
 /// @timeout 1500
@@ -203,7 +207,7 @@ fn c06_symbol_three_way() {
 #[kani::proof]
 #[kani::unwind(14)]
 fn c06_r6rs_str_three_way() {
-    let _ = three_way!(Scan::R6rsStr, false);
+    let _ = three_way!(Scan::R6rsStr, false, 2);
 }
 
 /// R6RS character scanner (after `#\`): slice / stream / str agree.
@@ -216,7 +220,7 @@ fn c06_r6rs_str_three_way() {
 #[kani::proof]
 #[kani::unwind(14)]
 fn c06_r6rs_char_three_way() {
-    let _ = three_way!(Scan::R6rsChar, false);
+    let _ = three_way!(Scan::R6rsChar, false, 2);
 }
 
 /// Emacs Lisp character scanner (after `?`): slice / stream / str agree.
@@ -229,7 +233,7 @@ fn c06_r6rs_char_three_way() {
 #[kani::proof]
 #[kani::unwind(14)]
 fn c06_elisp_char_three_way() {
-    let _ = three_way!(Scan::ElispChar, false);
+    let _ = three_way!(Scan::ElispChar, false, 2);
 }
 
 /// C17: every name the symbol scanner returns from arbitrary bytes (slice, stream) or valid UTF-8 (str, unchecked
@@ -254,7 +258,7 @@ fn c17_symbol_utf8() {
 #[kani::proof]
 #[kani::unwind(14)]
 fn c17_r6rs_str_utf8() {
-    let _ = three_way!(Scan::R6rsStr, true);
+    let _ = three_way!(Scan::R6rsStr, true, 2);
 }
 
 /// C12: the symbol scanner ends a token before every trivia byte (space, tab, CR, LF, form feed, ';').
